@@ -5,7 +5,9 @@
 
 mod c04;
 mod c06;
+mod c08;
 mod c14;
+mod c16;
 mod views;
 mod c17;
 mod util;
@@ -51,7 +53,14 @@ fn main() {
     match cmd.as_str() {
         "C04" => c04::generate(&mut out, seed, thorough),
         "C06" => c06::generate(&mut out, seed, thorough),
+        "C08" => c08::generate(&mut out, seed, thorough),
         "C14" => c14::generate(&mut out, seed, thorough),
+        "C16" => c16::generate(&mut out, seed, thorough),
+        "dump-tables" => {
+            std::fs::create_dir_all(&outdir).unwrap();
+            c16::dump_tables(&format!("{}/tables.txt", outdir));
+            return;
+        }
         "C17" => c17::generate(&mut out, seed, thorough),
         other => {
             eprintln!("unknown property {}", other);
